@@ -457,6 +457,8 @@ func VHarnessHistory() {
 	vSetup()
 	names := vFunctionNames()
 	top := names[len(names)-1]
+	keep := vKeepProject
+	vKeepProject = false // the initial builds are separate processes
 	if vParam("first") == 1 {
 		r := vBuildOf(top, nil)
 		vAssert(r.buildErr == nil, "first build of an intact tree fails")
@@ -471,6 +473,7 @@ func VHarnessHistory() {
 			}
 		}
 	}
+	vKept, vKeepProject = nil, keep // the steps below start from a freshly loaded project (kept for all of them when reload=0)
 	vSteps()
 	vFail = map[string]bool{}
 	r := vBuildOf(top, nil)
